@@ -1377,6 +1377,12 @@ pub fn run_term_program(p: &TermProgram) -> TermOutcome {
                 let k = key((i * 7 + w * 3) % nkeys);
                 let _g = env::watch("C18 writer call");
                 enter(&inside, &max_inside);
+                if sweeper && i % 41 == 40 {
+                    // a sweeper that is already running is started again with another configuration
+                    // (the old one has to stop and be joined while the store is alive)
+                    let _g2 = env::watch("C18 restart of the TTL sweeper");
+                    store.start_ttl_sweeper(Some(feoxdb::core::ttl_sweep::TtlConfig { sample_size: 10 + i % 30, expiry_threshold: 0.2, max_iterations: 4, max_time_per_run: std::time::Duration::from_millis(1), sleep_interval: std::time::Duration::from_millis(1 + (i % 3) as u64), enabled: true }));
+                }
                 match (i + w) % 9 {
                     7 => {
                         let _ = store.update_ttl(&k, 3600);
